@@ -398,9 +398,26 @@ func ruleC17R4(c *Ctx) {
 			continue
 		}
 		aborter := closer[0].Value()
+		// release events: the Signal of the connection closer, and any direct Close of the connection itself
+		var connP ssa.Value
+		for _, p := range fn.Params {
+			if strings.Contains(p.Type().String(), "net.TCPConn") || strings.Contains(p.Type().String(), "net.Conn") {
+				connP = p
+			}
+		}
+		if connP == nil {
+			broken("C17.R4: runConnection no longer has a connection parameter")
+		}
 		isSig := func(s ssa.CallInstruction) bool {
 			f := s.Common().StaticCallee()
-			return f != nil && extName(f) == aSignal && sameValue(s.Common().Args[0], aborter)
+			if f != nil && extName(f) == aSignal && sameValue(s.Common().Args[0], aborter) {
+				return true
+			}
+			cc := s.Common()
+			if cc.IsInvoke() {
+				return cc.Method.Name() == "Close" && mentions(cc.Value, func(v ssa.Value) bool { return v == connP })
+			}
+			return f != nil && f.Name() == "Close" && len(cc.Args) > 0 && mentions(cc.Args[0], func(v ssa.Value) bool { return v == connP })
 		}
 		isClose := func(s ssa.CallInstruction) bool { return invokeOf(s, "base.MessageReceiverSink", "Close") }
 		okAll := true
@@ -418,7 +435,7 @@ func ruleC17R4(c *Ctx) {
 			}
 			if hit, tr := c.precedes(fn, callInstrSet(cl), map[ssa.Instruction]bool{s: true}, nil); hit != nil || len(cl) == 0 {
 				okAll = false
-				why = "connAborter.Signal() at " + c.P.pos(s.Pos()) + " runs before the sink is closed (" + c.P.trailString(tr) + "): the descriptor can be reused by a new connection, whose slot the late Close then clears"
+				why = "the connection is released (connAborter.Signal / conn.Close) at " + c.P.pos(s.Pos()) + " before the sink is closed (" + c.P.trailString(tr) + "): the descriptor can be reused by a new connection, whose slot the late Close then clears"
 			}
 		}
 		for _, rd := range rundefersOf(fn) {
